@@ -534,6 +534,18 @@ func (c16) Case(c *core.Ctx) {
 		file("Maps.JsonFile(safe)", mvs.JsonFile(fn, true), jss)
 		file("Maps.JsonFileIndent", mvs.JsonFileIndent(fn, prefix, indent), jis)
 		file("Maps.JsonFileIndent(safe)", mvs.JsonFileIndent(fn, prefix, indent, true), jiss)
+		// written over an existing file of exactly the size of the new content (other bytes): size says nothing about content
+		for i, w := range []func() error{func() error { return mvs.XmlFile(fn) }, func() error { return mvs.XmlFileIndent(fn, prefix, indent) },
+			func() error { return mvs.JsonFile(fn) }, func() error { return mvs.JsonFileIndent(fn, prefix, indent) }} {
+			if w() != nil {
+				continue
+			}
+			if b, e := os.ReadFile(fn); e == nil && len(b) > 0 {
+				os.WriteFile(fn, bytes.Repeat([]byte("#"), len(b)), 0o644)
+				file([]string{"Maps.XmlFile", "Maps.XmlFileIndent", "Maps.JsonFile", "Maps.JsonFileIndent"}[i]+"(over a file of the same size)", w(), [][][]byte{xs, xis, js, jis}[i])
+				c.Count("file:over-same-size-file")
+			}
+		}
 		if r.Intn(4) == 0 {
 			// a Maps value without members, written over an existing file: the concatenation of zero encodings is the empty file
 			var none [][]byte
